@@ -1,11 +1,12 @@
 """Direct checks of the i18n contract for attributes, dynamic content and
 message objects (C10), against the value table of specs/ZPT.tla
 (which value classes are offered to the translation function)."""
+from harness import REPO_SRC  # noqa: E402
 import sys
 
 
 def run(ctx, rnd):
-    sys.path.insert(0, "/repo/src")
+    sys.path.insert(0, REPO_SRC)
     from chameleon import PageTemplate
     calls = []
 
